@@ -3,4 +3,450 @@ import CalVerif.Spec.Geometry
 /-! Helper lemmas for `Props/C17.lean`. -/
 namespace Geometry
 
+/-! ### `u32` arithmetic without overflow -/
+
+theorem addU_ok (m : Mode) {a b : Nat} (h : a + b < U32) : addU m a b = .ok (a + b) := by
+  unfold addU; rw [if_pos h]
+
+theorem mulU_ok (m : Mode) {a b : Nat} (h : a * b < U32) : mulU m a b = .ok (a * b) := by
+  unfold mulU; rw [if_pos h]
+
+theorem toNat_ofNat_lt {n : Nat} (h : n < 256) : (UInt8.ofNat n).toNat = n := by
+  rw [UInt8.toNat_ofNat']; exact Nat.mod_eq_of_lt h
+
+/-! ### the digit phase of `get_row_and_optional_column` -/
+
+theorem rcStep_digit (m : Mode) (s : RC) (d : Nat) (hd : d < 10) (hr : s.readrow = true)
+    (h1 : d * s.pow < U32) (h2 : s.row + d * s.pow < U32) (h3 : s.pow * 10 < U32) :
+    rcStep m s (UInt8.ofNat (48 + d)) = .ok { s with row := s.row + d * s.pow, pow := s.pow * 10 } := by
+  have hb : (UInt8.ofNat (48 + d)).toNat = 48 + d := toNat_ofNat_lt (by omega)
+  unfold rcStep
+  rw [hb, if_pos (by omega)]
+  unfold rcDigit
+  have e : 48 + d - 48 = d := by omega
+  rw [e]
+  simp only [hr, not_true_eq_false, if_false, mulU_ok m h1, addU_ok m h2, mulU_ok m h3]
+
+/-- folding the reversed decimal digits of `n` adds `n * pow` to the row accumulator; the power left behind
+    is irrelevant (the first letter resets it) -/
+theorem rcFold_decRev (m : Mode) (rest : Bytes) (c : Nat) :
+    ∀ (fuel n a p : Nat), n ≤ fuel → a + 10 * (n * p) < U32 →
+      ∃ p', rcFold m (decRev fuel n ++ rest) ⟨a, c, p, true⟩ = rcFold m rest ⟨a + n * p, c, p', true⟩ := by
+  intro fuel
+  induction fuel with
+  | zero =>
+    intro n a p hn _
+    have : n = 0 := by omega
+    subst this
+    exact ⟨p, by simp [decRev]⟩
+  | succ f ih =>
+    intro n a p hn hb
+    by_cases h0 : n = 0
+    · subst h0; exact ⟨p, by simp [decRev]⟩
+    · have hsplit : n * p = 10 * (n / 10 * p) + n % 10 * p := by
+        have hn' : n = 10 * (n / 10) + n % 10 := (Nat.div_add_mod n 10).symm
+        calc n * p = (10 * (n / 10) + n % 10) * p := by rw [← hn']
+          _ = 10 * (n / 10 * p) + n % 10 * p := by rw [Nat.add_mul, Nat.mul_assoc]
+      have hp : p ≤ n * p := Nat.le_mul_of_pos_left p (by omega)
+      have hstep := rcStep_digit m ⟨a, c, p, true⟩ (n % 10) (Nat.mod_lt n (by omega)) rfl
+        (by simp only; omega) (by simp only; omega) (by simp only; omega)
+      obtain ⟨p', hih⟩ := ih (n / 10) (a + n % 10 * p) (p * 10) (by omega)
+        (by
+          have : n / 10 * (p * 10) = 10 * (n / 10 * p) := by ac_rfl
+          rw [this]; omega)
+      refine ⟨p', ?_⟩
+      simp only [decRev, h0, if_false, List.cons_append, rcFold, hstep]
+      rw [hih]
+      congr 2
+      have : n / 10 * (p * 10) = 10 * (n / 10 * p) := by ac_rfl
+      rw [this]; omega
+
+/-! ### the letter phase -/
+
+theorem rcStep_letter (m : Mode) (R a p k : Nat) (hk : k < 26)
+    (h1 : (k + 1) * p < U32) (h2 : a + (k + 1) * p < U32) (h3 : p * 26 < U32) :
+    rcStep m ⟨R, a, p, false⟩ (UInt8.ofNat (65 + k)) = .ok ⟨R, a + (k + 1) * p, p * 26, false⟩ := by
+  have hb : (UInt8.ofNat (65 + k)).toNat = 65 + k := toNat_ofNat_lt (by omega)
+  unfold rcStep
+  rw [hb, if_neg (by omega), if_pos (by omega)]
+  unfold rcLetter
+  have e : 65 + k - 65 = k := by omega
+  rw [e]
+  simp only [Bool.false_eq_true, false_and, if_false, mulU_ok m h1, addU_ok m h2, mulU_ok m h3]
+
+theorem rcStep_eq_letter (m : Mode) (s : RC) (k : Nat) (hk : k < 26) :
+    rcStep m s (UInt8.ofNat (65 + k)) = rcLetter m s k := by
+  have hb : (UInt8.ofNat (65 + k)).toNat = 65 + k := toNat_ofNat_lt (by omega)
+  unfold rcStep
+  rw [hb, if_neg (by omega), if_pos (by omega)]
+  have e : 65 + k - 65 = k := by omega
+  rw [e]
+
+/-- the first letter met while still reading the row behaves like a letter met with `pow = 1` -/
+theorem rcStep_first_letter (m : Mode) (R p0 k : Nat) (hR : R ≠ 0) (hk : k < 26) :
+    rcStep m ⟨R, 0, p0, true⟩ (UInt8.ofNat (65 + k)) = rcStep m ⟨R, 0, 1, false⟩ (UInt8.ofNat (65 + k)) := by
+  rw [rcStep_eq_letter m _ k hk, rcStep_eq_letter m _ k hk]
+  unfold rcLetter
+  simp [hR]
+
+/-- folding the reversed bijective base-26 digits of `v` adds `v * pow` to the column accumulator -/
+theorem rcFold_colRev (m : Mode) (rest : Bytes) (R : Nat) :
+    ∀ (fuel v a p : Nat), v ≤ fuel → a + 26 * (v * p) < U32 →
+      ∃ p', rcFold m (colRev fuel v ++ rest) ⟨R, a, p, false⟩ = rcFold m rest ⟨R, a + v * p, p', false⟩ := by
+  intro fuel
+  induction fuel with
+  | zero =>
+    intro v a p hv _
+    have : v = 0 := by omega
+    subst this
+    exact ⟨p, by simp [colRev]⟩
+  | succ f ih =>
+    intro v a p hv hb
+    by_cases h0 : v = 0
+    · subst h0; exact ⟨p, by simp [colRev]⟩
+    · have hv' : v = 26 * ((v - 1) / 26) + ((v - 1) % 26 + 1) := by
+        have := (Nat.div_add_mod (v - 1) 26).symm; omega
+      have hsplit : v * p = 26 * ((v - 1) / 26 * p) + ((v - 1) % 26 + 1) * p := by
+        calc v * p = (26 * ((v - 1) / 26) + ((v - 1) % 26 + 1)) * p := by rw [← hv']
+          _ = 26 * ((v - 1) / 26 * p) + ((v - 1) % 26 + 1) * p := by rw [Nat.add_mul, Nat.mul_assoc]
+      have hp : p ≤ v * p := Nat.le_mul_of_pos_left p (by omega)
+      have hk : (v - 1) % 26 < 26 := Nat.mod_lt _ (by omega)
+      have hstep := rcStep_letter m R a p ((v - 1) % 26) hk (by omega) (by omega) (by omega)
+      have hcomm : (v - 1) / 26 * (p * 26) = 26 * ((v - 1) / 26 * p) := by ac_rfl
+      obtain ⟨p', hih⟩ := ih ((v - 1) / 26) (a + ((v - 1) % 26 + 1) * p) (p * 26) (by omega)
+        (by rw [hcomm]; omega)
+      refine ⟨p', ?_⟩
+      simp only [colRev, h0, if_false, List.cons_append, rcFold, hstep]
+      rw [hih]
+      congr 2
+      rw [hcomm]; omega
+
+theorem colRev_ne_nil (fuel v : Nat) (hv : 0 < v) (hf : v ≤ fuel) : colRev fuel v ≠ [] := by
+  cases fuel with
+  | zero => omega
+  | succ f => simp [colRev, Nat.ne_of_gt hv]
+
+/-- letters met right after the digits: from `readrow = true` with a non-zero row -/
+theorem rcFold_colRev_first (m : Mode) (rest : Bytes) (R p0 : Nat) (hR : R ≠ 0)
+    (fuel v : Nat) (hv : 0 < v) (hf : v ≤ fuel) (hb : 26 * v < U32) :
+    ∃ p', rcFold m (colRev fuel v ++ rest) ⟨R, 0, p0, true⟩ = rcFold m rest ⟨R, v, p', false⟩ := by
+  obtain ⟨p', h⟩ := rcFold_colRev m rest R fuel v 0 1 hf (by omega)
+  refine ⟨p', ?_⟩
+  rw [Nat.zero_add, Nat.mul_one] at h
+  rw [← h]
+  cases fuel with
+  | zero => omega
+  | succ f =>
+    simp only [colRev, Nat.ne_of_gt hv, if_false, List.cons_append, rcFold]
+    rw [rcStep_first_letter m R p0 _ hR (Nat.mod_lt _ (by omega))]
+
+/-! ### one cell name -/
+
+theorem getRowColumn_renderCell (m : Mode) (row col : Nat) (hr : row < 1048576) (hc : col < 16384) :
+    getRowColumn m (renderCell row col) = .ok (row, col) := by
+  have hrev : (renderCell row col).reverse = decRev (row + 1) (row + 1) ++ (colRev (col + 1) (col + 1) ++ []) := by
+    simp [renderCell, colName, dec]
+  obtain ⟨p1, h1⟩ := rcFold_decRev m (colRev (col + 1) (col + 1) ++ []) 0 (row + 1) (row + 1) 0 1
+    (Nat.le_refl _) (by simp only [U32]; omega)
+  obtain ⟨p2, h2⟩ := rcFold_colRev_first m [] (0 + (row + 1) * 1) p1 (by omega) (col + 1) (col + 1)
+    (by omega) (Nat.le_refl _) (by simp only [U32]; omega)
+  unfold getRowColumn getRowAndOptionalColumn
+  rw [hrev, h1, h2]
+  simp only [rcFold]
+  have e1 : 0 + (row + 1) * 1 = row + 1 := by omega
+  simp only [e1, Nat.add_one_ne_zero, if_false, Nat.add_sub_cancel]
+
+/-! ### splitting at the colon -/
+
+theorem mem_decRev (b : UInt8) : ∀ (fuel n : Nat), b ∈ decRev fuel n → 48 ≤ b.toNat ∧ b.toNat ≤ 57 := by
+  intro fuel
+  induction fuel with
+  | zero => intro n h; simp [decRev] at h
+  | succ f ih =>
+    intro n h
+    by_cases h0 : n = 0
+    · simp [decRev, h0] at h
+    · simp only [decRev, h0, if_false, List.mem_cons] at h
+      rcases h with h | h
+      · subst h
+        have : n % 10 < 10 := Nat.mod_lt _ (by omega)
+        rw [toNat_ofNat_lt (by omega)]; omega
+      · exact ih _ h
+
+theorem mem_colRev (b : UInt8) : ∀ (fuel v : Nat), b ∈ colRev fuel v → 65 ≤ b.toNat ∧ b.toNat ≤ 90 := by
+  intro fuel
+  induction fuel with
+  | zero => intro n h; simp [colRev] at h
+  | succ f ih =>
+    intro v h
+    by_cases h0 : v = 0
+    · simp [colRev, h0] at h
+    · simp only [colRev, h0, if_false, List.mem_cons] at h
+      rcases h with h | h
+      · subst h
+        have : (v - 1) % 26 < 26 := Nat.mod_lt _ (by omega)
+        rw [toNat_ofNat_lt (by omega)]; omega
+      · exact ih _ h
+
+theorem renderCell_noColon (row col : Nat) : ∀ b ∈ renderCell row col, b ≠ 58 := by
+  intro b hb e
+  subst e
+  simp only [renderCell, colName, dec, List.mem_append, List.mem_reverse] at hb
+  rcases hb with hb | hb
+  · have := mem_colRev _ _ _ hb
+    have h58 : (58 : UInt8).toNat = 58 := by decide
+    omega
+  · have := mem_decRev _ _ _ hb
+    have h58 : (58 : UInt8).toNat = 58 := by decide
+    omega
+
+theorem splitColon_noColon : ∀ (l : Bytes), (∀ b ∈ l, b ≠ 58) → splitColon l = [l]
+  | [], _ => rfl
+  | c :: cs, h => by
+    have hc : c ≠ 58 := h c (List.mem_cons_self ..)
+    have ih := splitColon_noColon cs (fun b hb => h b (List.mem_cons_of_mem _ hb))
+    simp [splitColon, hc, ih]
+
+theorem splitColon_append : ∀ (a b : Bytes), (∀ x ∈ a, x ≠ 58) →
+    splitColon (a ++ 58 :: b) = a :: splitColon b
+  | [], b, _ => by simp [splitColon]
+  | c :: cs, b, h => by
+    have hc : c ≠ 58 := h c (List.mem_cons_self ..)
+    have ih := splitColon_append cs b (fun x hx => h x (List.mem_cons_of_mem _ hx))
+    simp [splitColon, hc, ih]
+
+/-! ### whole references -/
+
+theorem getDimension_renderRef2 (m : Mode) (d : Rect) (hv : d.Valid) :
+    getDimension m (renderRef2 d) = .ok d := by
+  obtain ⟨h1, h2, h3, h4⟩ := hv
+  unfold getDimension renderRef2
+  rw [splitColon_append _ _ (renderCell_noColon _ _), splitColon_noColon _ (renderCell_noColon _ _)]
+  simp only [parseParts, getRowColumn_renderCell m d.sr d.sc (by omega) (by omega),
+    getRowColumn_renderCell m d.er d.ec h3 h4]
+  rw [if_neg (by omega)]
+
+theorem getDimension_renderCell (m : Mode) (row col : Nat) (hr : row < 1048576) (hc : col < 16384) :
+    getDimension m (renderCell row col) = .ok ⟨row, col, row, col⟩ := by
+  unfold getDimension
+  rw [splitColon_noColon _ (renderCell_noColon _ _)]
+  simp only [parseParts, getRowColumn_renderCell m row col hr hc]
+
+theorem getDimension_renderRef (m : Mode) (d : Rect) (hv : d.Valid) :
+    getDimension m (renderRef d) = .ok d := by
+  unfold renderRef
+  split
+  · rename_i h
+    obtain ⟨h1, h2, h3, h4⟩ := hv
+    rw [getDimension_renderCell m d.sr d.sc (by omega) (by omega)]
+    obtain ⟨a, b, c, e⟩ := d
+    simp only at h
+    simp [h.1, h.2]
+  · exact getDimension_renderRef2 m d hv
+
+end Geometry
+
+namespace Geometry
+
+/-! ### xls MERGEDCELLS -/
+
+theorem u16le_length (x : Nat) : (u16le x).length = 2 := rfl
+
+theorem encodeRef8_length (d : Rect) : (encodeRef8 d).length = 8 := by
+  simp [encodeRef8, u16le_length]
+
+theorem flatMap_encodeRef8_length (l : List Rect) : (l.flatMap encodeRef8).length = 8 * l.length := by
+  induction l with
+  | nil => rfl
+  | cons d ds ih => simp only [List.flatMap_cons, List.length_append, encodeRef8_length, ih, List.length_cons]; omega
+
+theorem readU16At_u16le (pre post : Bytes) (x off : Nat) (hx : x < 65536) (hoff : off = pre.length) :
+    readU16At (pre ++ (u16le x ++ post)) off = .ok x := by
+  subst hoff
+  unfold readU16At
+  rw [List.drop_left']
+  · simp only [u16le, List.cons_append, List.nil_append]
+    rw [toNat_ofNat_lt (Nat.mod_lt _ (by omega)), toNat_ofNat_lt (Nat.mod_lt _ (by omega))]
+    congr 1; omega
+  · rfl
+
+/-- the loop of `parse_merge_cells` positioned after `done` entries reads the remaining `todo` entries -/
+theorem mcLoop_encode (hd : Bytes) (hhd : hd.length = 2) (tail : Bytes) :
+    ∀ (todo done : List Rect), done.length + todo.length < 8192 → (∀ d ∈ todo, d.Fits16) →
+      mcLoop (hd ++ ((done ++ todo).flatMap encodeRef8 ++ tail)) todo.length done.length = .ok todo := by
+  intro todo
+  induction todo with
+  | nil => intro done _ _; rfl
+  | cons d ds ih =>
+    intro done hlen hfit
+    obtain ⟨f1, f2, f3, f4⟩ := hfit d (List.mem_cons_self ..)
+    have hrest := ih (done ++ [d]) (by simp only [List.length_append, List.length_cons, List.length_nil] at *; omega)
+      (fun x hx => hfit x (List.mem_cons_of_mem _ hx))
+    simp only [List.length_cons] at hlen
+    -- the record as prefix ++ the four fields ++ rest
+    have hsplit : hd ++ ((done ++ d :: ds).flatMap encodeRef8 ++ tail) =
+        (hd ++ done.flatMap encodeRef8) ++ (u16le d.sr ++ (u16le d.er ++ (u16le d.sc ++ (u16le d.ec ++
+          (ds.flatMap encodeRef8 ++ tail))))) := by
+      simp [List.flatMap_append, encodeRef8, List.append_assoc]
+    have hpre : (hd ++ done.flatMap encodeRef8).length = 2 + done.length * 8 := by
+      rw [List.length_append, hhd, flatMap_encodeRef8_length]; omega
+    have r1 : readU16At (hd ++ ((done ++ d :: ds).flatMap encodeRef8 ++ tail)) (2 + done.length * 8) = .ok d.sr := by
+      rw [hsplit]; exact readU16At_u16le _ _ d.sr _ f1 hpre.symm
+    have r2 : readU16At (hd ++ ((done ++ d :: ds).flatMap encodeRef8 ++ tail)) (2 + done.length * 8 + 2) = .ok d.er := by
+      rw [hsplit, show ∀ (a b c : Bytes), a ++ (b ++ c) = (a ++ b) ++ c from fun a b c => (List.append_assoc a b c).symm]
+      exact readU16At_u16le _ _ d.er _ f3 (by simp only [List.length_append, u16le_length, hpre])
+    have r3 : readU16At (hd ++ ((done ++ d :: ds).flatMap encodeRef8 ++ tail)) (2 + done.length * 8 + 4) = .ok d.sc := by
+      rw [hsplit]
+      have : hd ++ done.flatMap encodeRef8 ++ (u16le d.sr ++ (u16le d.er ++ (u16le d.sc ++ (u16le d.ec ++
+          (ds.flatMap encodeRef8 ++ tail))))) = (hd ++ done.flatMap encodeRef8 ++ u16le d.sr ++ u16le d.er) ++
+          (u16le d.sc ++ (u16le d.ec ++ (ds.flatMap encodeRef8 ++ tail))) := by simp only [List.append_assoc]
+      rw [this]
+      exact readU16At_u16le _ _ d.sc _ f2 (by simp only [List.length_append, u16le_length, hpre])
+    have r4 : readU16At (hd ++ ((done ++ d :: ds).flatMap encodeRef8 ++ tail)) (2 + done.length * 8 + 6) = .ok d.ec := by
+      rw [hsplit]
+      have : hd ++ done.flatMap encodeRef8 ++ (u16le d.sr ++ (u16le d.er ++ (u16le d.sc ++ (u16le d.ec ++
+          (ds.flatMap encodeRef8 ++ tail))))) = (hd ++ done.flatMap encodeRef8 ++ u16le d.sr ++ u16le d.er ++
+          u16le d.sc) ++ (u16le d.ec ++ (ds.flatMap encodeRef8 ++ tail)) := by simp only [List.append_assoc]
+      rw [this]
+      exact readU16At_u16le _ _ d.ec _ f4 (by simp only [List.length_append, u16le_length, hpre])
+    have e : (done ++ [d] ++ ds) = done ++ d :: ds := by simp
+    have el : (done ++ [d]).length = done.length + 1 := by simp
+    rw [e, el] at hrest
+    simp only [List.length_cons]
+    unfold mcLoop
+    rw [if_neg (by simp only [U16]; omega)]
+    simp only [r1, r2, r3, r4, hrest]
+
+end Geometry
+
+namespace Geometry
+
+/-! ### XML events of the merge readers -/
+
+theorem dropWhile_noColon : ∀ (pre rest : List Char), (∀ c ∈ pre, c ≠ ':') →
+    (pre ++ ':' :: rest).dropWhile (· ≠ ':') = ':' :: rest
+  | [], rest, _ => by
+    rw [List.nil_append, List.dropWhile_cons, if_neg (by simp)]
+  | c :: cs, rest, h => by
+    have hc : c ≠ ':' := h c (List.mem_cons_self ..)
+    have ih := dropWhile_noColon cs rest (fun x hx => h x (List.mem_cons_of_mem _ hx))
+    rw [List.cons_append, List.dropWhile_cons, if_pos (by simpa using hc)]
+    exact ih
+
+theorem dropWhile_noColon_nil : ∀ (n : List Char), (∀ c ∈ n, c ≠ ':') → n.dropWhile (· ≠ ':') = []
+  | [], _ => rfl
+  | c :: cs, h => by
+    have hc : c ≠ ':' := h c (List.mem_cons_self ..)
+    have ih := dropWhile_noColon_nil cs (fun x hx => h x (List.mem_cons_of_mem _ hx))
+    rw [List.dropWhile_cons, if_pos (by simpa using hc)]
+    exact ih
+
+theorem localName_qn (pre n : List Char) (hp : ∀ c ∈ pre, c ≠ ':') (hn : ∀ c ∈ n, c ≠ ':') :
+    localName (qn pre n) = n := by
+  by_cases hpre : pre = []
+  · simp only [qn, hpre, if_true, localName]
+    rw [dropWhile_noColon_nil n hn]
+  · simp only [qn, hpre, if_false, localName]
+    rw [dropWhile_noColon pre n hp]
+
+theorem nMergeCell_noColon : ∀ c ∈ nMergeCell, c ≠ ':' := by decide
+theorem nMergeCells_noColon : ∀ c ∈ nMergeCells, c ≠ ':' := by decide
+theorem nMergeCell_ne : nMergeCell ≠ nMergeCells := by decide
+
+theorem attr?_ref : ∀ (a1 a2 : List (List Char × Bytes)) (v : Bytes), (∀ a ∈ a1, a.1 ≠ nRef) →
+    attr? (a1 ++ (nRef, v) :: a2) nRef = some v
+  | [], a2, v, _ => by simp [attr?]
+  | a :: as, a2, v, h => by
+    have ha : a.1 ≠ nRef := h a (List.mem_cons_self ..)
+    have ih := attr?_ref as a2 v (fun x hx => h x (List.mem_cons_of_mem _ hx))
+    unfold attr? at ih ⊢
+    rw [List.cons_append, List.find?_cons_of_neg (by simpa using ha)]
+    exact ih
+
+theorem regionsOfSheet_inert (m : Mode) : ∀ (l rest : List Ev), (∀ e ∈ l, e.Inert) →
+    regionsOfSheet m (l ++ rest) = regionsOfSheet m rest
+  | [], _, _ => rfl
+  | e :: es, rest, h => by
+    have he := h e (List.mem_cons_self ..)
+    have ih := regionsOfSheet_inert m es rest (fun x hx => h x (List.mem_cons_of_mem _ hx))
+    cases e with
+    | start n attrs => simp only [Ev.Inert] at he; simp [regionsOfSheet, he.1, ih]
+    | end_ n => simp [regionsOfSheet, ih]
+    | text t => simp [regionsOfSheet, ih]
+    | other => simp [regionsOfSheet, ih]
+
+theorem readMergeCells_inert (m : Mode) : ∀ (l rest : List Ev), (∀ e ∈ l, e.Inert) →
+    readMergeCells m (l ++ rest) = readMergeCells m rest
+  | [], _, _ => rfl
+  | e :: es, rest, h => by
+    have he := h e (List.mem_cons_self ..)
+    have ih := readMergeCells_inert m es rest (fun x hx => h x (List.mem_cons_of_mem _ hx))
+    cases e with
+    | start n attrs => simp only [Ev.Inert] at he; simp [readMergeCells, he.1, ih]
+    | end_ n => simp only [Ev.Inert] at he; simp [readMergeCells, he, ih]
+    | text t => simp [readMergeCells, ih]
+    | other => simp [readMergeCells, ih]
+
+theorem worksheetMergeCells_inert (m : Mode) : ∀ (l rest : List Ev), (∀ e ∈ l, e.Inert) →
+    worksheetMergeCells m (l ++ rest) = worksheetMergeCells m rest
+  | [], _, _ => rfl
+  | e :: es, rest, h => by
+    have he := h e (List.mem_cons_self ..)
+    have ih := worksheetMergeCells_inert m es rest (fun x hx => h x (List.mem_cons_of_mem _ hx))
+    cases e with
+    | start n attrs => simp only [Ev.Inert] at he; simp [worksheetMergeCells, he.2, ih]
+    | end_ n => simp [worksheetMergeCells, ih]
+    | text t => simp [worksheetMergeCells, ih]
+    | other => simp [worksheetMergeCells, ih]
+
+theorem getDimension_refText (m : Mode) (d : MergeDecl) (hv : d.rect.Valid) :
+    getDimension m d.refText = .ok d.rect := by
+  unfold MergeDecl.refText
+  split
+  · exact getDimension_renderRef2 m d.rect hv
+  · exact getDimension_renderRef m d.rect hv
+
+theorem readMergeCells_cell (m : Mode) (pre : List Char) (hp : ∀ c ∈ pre, c ≠ ':') (d : MergeDecl) (hd : d.Ok)
+    (rest : List Ev) (ds : List Rect) (h : readMergeCells m rest = .ok ds) :
+    readMergeCells m (renderMergeCell pre d ++ rest) = .ok (d.rect :: ds) := by
+  obtain ⟨hv, ha, hg⟩ := hd
+  have hl := localName_qn pre nMergeCell hp nMergeCell_noColon
+  unfold renderMergeCell
+  simp only [List.cons_append, readMergeCells, hl, if_true, attr?_ref _ _ _ ha, getDimension_refText m d hv,
+    nMergeCell_ne, if_false]
+  rw [readMergeCells_inert m d.gap rest hg, h]
+
+theorem regionsOfSheet_cell (m : Mode) (pre : List Char) (hp : ∀ c ∈ pre, c ≠ ':') (d : MergeDecl) (hd : d.Ok)
+    (rest : List Ev) (ds : List Rect) (h : regionsOfSheet m rest = .ok ds) :
+    regionsOfSheet m (renderMergeCell pre d ++ rest) = .ok (d.rect :: ds) := by
+  obtain ⟨hv, ha, hg⟩ := hd
+  have hl := localName_qn pre nMergeCell hp nMergeCell_noColon
+  unfold renderMergeCell
+  simp only [List.cons_append, regionsOfSheet, hl, if_true, attr?_ref _ _ _ ha, getDimension_refText m d hv]
+  rw [regionsOfSheet_inert m d.gap rest hg, h]
+
+theorem readMergeCells_render (m : Mode) (pre : List Char) (hp : ∀ c ∈ pre, c ≠ ':') (after : List Ev) :
+    ∀ (ds : List MergeDecl), (∀ d ∈ ds, d.Ok) →
+      readMergeCells m (renderMergeCells pre ds ++ after) = .ok (ds.map (·.rect))
+  | [], _ => by
+    have hl := localName_qn pre nMergeCells hp nMergeCells_noColon
+    simp [renderMergeCells, readMergeCells, hl]
+  | d :: ds, h => by
+    have ih := readMergeCells_render m pre hp after ds (fun x hx => h x (List.mem_cons_of_mem _ hx))
+    have := readMergeCells_cell m pre hp d (h d (List.mem_cons_self ..)) _ _ ih
+    simpa [renderMergeCells, List.flatMap_cons, List.append_assoc] using this
+
+theorem regionsOfSheet_render (m : Mode) (pre : List Char) (hp : ∀ c ∈ pre, c ≠ ':') (after : List Ev)
+    (hafter : ∀ e ∈ after, e.Inert) :
+    ∀ (ds : List MergeDecl), (∀ d ∈ ds, d.Ok) →
+      regionsOfSheet m (renderMergeCells pre ds ++ after) = .ok (ds.map (·.rect))
+  | [], _ => by
+    have := regionsOfSheet_inert m after [] hafter
+    simp only [List.append_nil] at this
+    simp [renderMergeCells, regionsOfSheet, this]
+  | d :: ds, h => by
+    have ih := regionsOfSheet_render m pre hp after hafter ds (fun x hx => h x (List.mem_cons_of_mem _ hx))
+    have := regionsOfSheet_cell m pre hp d (h d (List.mem_cons_self ..)) _ _ ih
+    simpa [renderMergeCells, List.flatMap_cons, List.append_assoc] using this
+
 end Geometry
